@@ -104,7 +104,7 @@ def rand_socks(rng, n4, n6):
 
 
 ALNUM = B62
-PUNCT = " \n\t.,;:-_/+=()[]<>\"'!?#%&*"
+PUNCT = " \n\t.,;:-_/+=()[]<>\"'!?#%&*\x00\x01\x08\x0b\x0e\x1f\x7f~`|{}^$@\\"
 
 
 def rand_text(rng, n, alnum_only=False):
@@ -134,7 +134,7 @@ def gen(tier, rng):
         pre = rand_text(rng, rng.choice([0, 0, 5, 40]))
         post = rand_text(rng, rng.choice([0, 0, 5, 40]))
         ops.append("brt %s %s %d %d %s %s %s %d %s" % (hx(pw), hx(pw2), hour, now, ttl, ",".join(socks) if socks else "-",
-                                                     hx(pre.encode()), rng.below(4), hx(post.encode())))
+                                                     hx(pre.encode()), rng.below(5), hx(post.encode())))
     # decoding of arbitrary / adversarial texts
     for _ in range(20000 if thorough else 1500):
         pw = rng.choice(pws)
@@ -182,7 +182,7 @@ def gen(tier, rng):
     for (n4, n6) in ([(0, 230), (200, 120), (250, 0)] if thorough else [(0, 230), (40, 215)]):
         pw = rng.choice(pws[:6])
         hour = 2003 + rng.below(50)
-        ops.append("brt %s %s %d %d - %s %s %d %s" % (hx(pw), hx(pw), hour, hour, ",".join(rand_socks(rng, n4, n6)), hx(rand_text(rng, 9).encode()), rng.below(4), "-"))
+        ops.append("brt %s %s %d %d - %s %s %d %s" % (hx(pw), hx(pw), hour, hour, ",".join(rand_socks(rng, n4, n6)), hx(rand_text(rng, 9).encode()), rng.below(5), "-"))
     rng.shuffle(ops)
     for i in range(0, len(ops), 100):
         yield Script("beacon-%d" % (i // 100), ops[i:i + 100], {"suite": "beacon"})
